@@ -122,7 +122,12 @@ ob("C19", "K2.no_clobber", {"exists": BOOL, "phase": R(0, 1)}, T=120, funcs=["cd
 SRC2 = "class %s(object):\n    \'\'\'\n    Doc.\n\n    :cvar a: an a\n    \'\'\'\n    a: Optional[int] = 5\n"
 
 
-def module_defines(kind, infer, n, i0, i1):
+PREPENDS = (None, "import os\n", "from __future__ import annotations\n", "import os\nfrom __future__ import annotations\n", '"""Doc."""\nimport os\n',
+            "from Pkg import Image\nimport sys\n")
+IMPORTS = ("", "from __future__ import division\n", "from . import sibling\nfrom __future__ import division\n", "import json\nfrom Pkg import Image\nfrom __future__ import annotations\n")
+
+
+def module_defines(kind, infer, n, i0, i1, prep=0, imp=0):
     import contextlib
     import io
 
@@ -140,7 +145,9 @@ def module_defines(kind, infer, n, i0, i1):
         try:
             mod = gen_module(decorator_list=[], emit_and_infer_imports=infer, emit_call=False, emit_default_doc=False, emit_name=emit_name,
                              functions_and_classes=None, imports="", input_mapping_it=iter(mapping), name_tpl="{name}Cfg", no_word_wrap=True,
-                             parse_name="class", prepend=None)
+                             parse_name="class", prepend=None) if not (prep or imp) else gen_module(
+                decorator_list=[], emit_and_infer_imports=infer, emit_call=False, emit_default_doc=False, emit_name=emit_name, functions_and_classes=None,
+                imports=_pick(IMPORTS, imp), input_mapping_it=iter(mapping), name_tpl="{name}Cfg", no_word_wrap=True, parse_name="class", prepend=_pick(PREPENDS, prep))
         except Exception as e:
             return "gen_module raised %s: %s" % (type(e).__name__, e)
     defined = [nd.name for nd in mod.body if isinstance(nd, (ast.ClassDef, ast.FunctionDef))]
@@ -157,9 +164,26 @@ def module_defines(kind, infer, n, i0, i1):
         return "Optional is used but typing is not imported although import inference is on"
     try:
         compile(mod, "<gen>", "exec")
+        if prep or imp:  # the file gen writes is the rendering of this module: it must compile as TEXT too (`from __future__` placement is only checked there)
+            from cdd.shared.source_transformer import to_code
+
+            compile(to_code(mod), "<gen>", "exec")
     except Exception as e:
         return "the generated module does not compile: %s" % e
+    if prep or imp:
+        have = [ast.unparse(nd) for nd in mod.body if isinstance(nd, (ast.Import, ast.ImportFrom))]
+        for nd in ast.parse((_pick(PREPENDS, prep) or "") + _pick(IMPORTS, imp)).body:
+            if isinstance(nd, (ast.Import, ast.ImportFrom)) and ast.unparse(nd) not in have:
+                return "the requested import %r is missing from the generated module" % ast.unparse(nd)
     return ""
+
+
+def _pick(options, i):
+    v = options[0]
+    for k in range(1, len(options)):
+        if i == k:
+            v = options[k]
+    return v
 
 
 ob("C19", "K3.module_defines.quick", {"kind": R(0, 2), "infer": BOOL, "n": R(1, 2), "i0": R(0, 0), "i1": R(0, 1)}, T=400, tpath=60,
@@ -170,3 +194,8 @@ ob("C19", "K3.module_defines", {"kind": R(0, 2), "infer": BOOL, "n": R(1, 2), "i
    funcs=["cdd.compound.gen_utils.gen_module", "cdd.compound.gen_utils.get_functions_and_classes", "cdd.shared.ast_utils.infer_imports", "cdd.shared.ast_utils.optimise_imports"],
    bound="gen_module on 1-2 class entries using Optional[int] (names over the finite alphabet), emit kind class/function/argparse, --emit-and-infer-imports on/off "
          "(solver-enumerated): one defined symbol per entry, __all__ == defined, typing imported when inferring, module compiles")(module_defines)
+ob("C19", "K3.module_prepend", {"kind": R(0, 2), "infer": BOOL, "n": R(1, 1), "i0": R(0, 0), "i1": R(0, 0), "prep": R(0, len(PREPENDS) - 1), "imp": R(0, len(IMPORTS) - 1)},
+   pre="prep + imp > 0", T=1500, tpath=60,
+   funcs=["cdd.compound.gen_utils.gen_module", "cdd.compound.gen_utils.get_functions_and_classes", "cdd.shared.ast_utils.infer_imports", "cdd.shared.ast_utils.optimise_imports"],
+   bound="gen_module with --prepend in %r and --imports-from-file content in %r (plain imports, relative imports, capitalised packages and `from __future__` lines in any order), "
+         "import inference on/off, 3 emit kinds (solver-enumerated): the module and its rendered text compile, every requested import is present, __all__ == defined" % (PREPENDS, IMPORTS))(module_defines)
